@@ -778,7 +778,7 @@ func (ex *Exec) doPanic(st *State, n ast.Node) {
 			if tv, ok := ex.info().Types[call.Args[0]]; ok && tv.Value != nil && tv.Value.Kind() == constant.String {
 				msg := constant.StringVal(tv.Value)
 				for _, m := range f0.fn.Con.MayPanic {
-					if m == msg {
+					if strings.Trim(m, "\"") == msg {
 						ex.note("declared refusal by panic: " + msg)
 						st.dead = true
 						return
@@ -788,6 +788,27 @@ func (ex *Exec) doPanic(st *State, n ast.Node) {
 				// panic(<package-level error value>): declared by the value's name
 				txt := ex.src(call.Args[0])
 				for _, m := range f0.fn.Con.MayPanic {
+					if name, ordTxt, has := strings.Cut(m, " #"); has && name == txt {
+						// site-specific: the k-th panic(<name>) of the body
+						ord, n := -1, 0
+						ast.Inspect(f0.fn.Decl.Body, func(x ast.Node) bool {
+							if ce, ok := x.(*ast.CallExpr); ok && len(ce.Args) == 1 {
+								if id, ok := ce.Fun.(*ast.Ident); ok && id.Name == "panic" && ex.src(ce.Args[0]) == txt {
+									if ce == call {
+										ord = n
+									}
+									n++
+								}
+							}
+							return true
+						})
+						if fmt.Sprint(ord) == strings.TrimSpace(ordTxt) {
+							ex.note("declared refusal by panic: " + m)
+							st.dead = true
+							return
+						}
+						continue
+					}
 					if m == txt {
 						ex.note("declared refusal by panic: " + txt)
 						st.dead = true
